@@ -23,6 +23,19 @@ CLAIM = dict(
     design="6/C01")
 
 
+def _skeleton(fn: ast.FunctionDef, holes: dict) -> str:
+    """normalised text of a function: docstring stripped, translated expressions replaced by their hole names"""
+    import copy
+    fn = copy.deepcopy(fn)
+    if fn.body and isinstance(fn.body[0], ast.Expr) and isinstance(fn.body[0].value, ast.Constant) \
+            and isinstance(fn.body[0].value.value, str):
+        fn.body = fn.body[1:]
+    t = ast.unparse(fn)
+    for k, v in sorted(holes.items(), key=lambda kv: -len(kv[0])):
+        t = t.replace(k, v)
+    return t
+
+
 def gen() -> None:
     mp = px.load("sansio/multipart.py")
     extra = px.const(px.find_assign(mp, "SEARCH_EXTRA_LENGTH"))
@@ -121,6 +134,37 @@ def gen() -> None:
         raise px.Unsupported("far-shortcut test is not a single comparison")
     zl, zr = zexpr(ft.left), zexpr(ft.comparators[0])
     far_term = {ast.Gt: f"Z.ltb {zr} {zl}", ast.GtE: f"Z.leb {zr} {zl}", ast.Lt: f"Z.ltb {zl} {zr}", ast.LtE: f"Z.leb {zl} {zr}"}[type(ft.ops[0])]
+    # ---- statement skeletons: everything of the decoder and of the form parser's loop that is NOT translated above is
+    # pinned as normalised source text (ast.unparse: layout and comments do not matter, docstrings stripped) with holes
+    # where the translated expressions sit, so that an edit either changes Gen.v (and has to get past the proofs) or
+    # is refused here.  The pin file is the source the hand-written coq/C01/Model.v was written against.
+    holes = {ast.unparse(a.value): "<SEARCH-POSITION>" for a in spos_assigns}
+    holes[ast.unparse(he[0].value)] = "<HEADERS-END>"
+    holes[ast.unparse(far[0].test)] = "<FAR-FROM-BOUNDARY>"
+    holes[ast.unparse(wait[0].test)] = "<WAIT>"
+    fpm = px.load("formparser.py")
+    # the limit conditions are C10's (translated there into coq/C10/Gen.v): holes here
+    for fn_ in (px.find_method(cls, "receive_data"), ne, px.find_method(px.find_class(fpm, "MultiPartParser"), "parse")):
+        for i_ in px.ifs_raising(fn_, "RequestEntityTooLarge"):
+            holes[ast.unparse(i_.test)] = "<LIMIT-CONDITION>"
+    skel = []
+    for owner, fn in ([("MultipartDecoder", px.find_method(cls, m)) for m in
+                       ("__init__", "last_newline", "receive_data", "next_event", "_parse_headers", "_parse_data")]
+                      + [("MultiPartParser", px.find_method(px.find_class(fpm, "MultiPartParser"), "parse")),
+                         ("formparser", px.find_def(fpm, "_chunk_iter"))]):
+        skel.append(f"## {owner}.{fn.name}\n" + _skeleton(fn, holes))
+    skel_text = "\n".join(skel) + "\n"
+    pin_path = os.path.join(os.path.dirname(__file__), "pins", "c01_decoder.txt")
+    if os.environ.get("VERIF_WRITE_PINS") == "C01":      # maintenance only (after reviewing Model.v against the source)
+        with open(pin_path, "w") as fh:
+            fh.write(skel_text)
+    with open(pin_path) as fh:
+        want = fh.read()
+    if skel_text != want:
+        import difflib
+        d = "\n".join(list(difflib.unified_diff(want.splitlines(), skel_text.splitlines(), "pinned", "source", lineterm="", n=1))[:40])
+        raise px.Unsupported("statement skeleton of the multipart decoder / form parser loop changed (coq/C01/Model.v was written "
+                             "against tools/pins/c01_decoder.txt):\n" + d)
     text = px.HEADER.format(tool="c01.py", src="sansio/multipart.py")
     text += "From Coq Require Import ZArith.\n"
     text += f"Definition search_extra_length : nat := {extra}%nat.\n"
